@@ -61,3 +61,12 @@ Goal True. idtac "THEOREM C01_symbol". Abort. Print Assumptions C01_symbol.
 Goal True. idtac "THEOREM C01_consistency". Abort. Print Assumptions C01_consistency.
 Goal True. idtac "THEOREM C01_bvp_exact". Abort. Print Assumptions C01_bvp_exact.
 Goal True. idtac "THEOREM C01_top_decay". Abort. Print Assumptions C01_top_decay.
+
+(* non-vacuity / decay: in the complex instance the eigenvalue of the top condition has
+   non-negative real part, so the continuation above the top node is the decaying one *)
+From Coq Require Import Reals.
+From BL Require Base.ROps Base.ROpsFacts.
+Theorem C01_top_decays_in_C : forall Kx Ky u v Kz lx ly,
+  (0 <= fst (eigval ROps.ROps Kx Ky u v Kz lx ly))%R.
+Proof. exact ROpsFacts.ROps_eigval_decays. Qed.
+Goal True. idtac "THEOREM C01_top_decays_in_C". Abort. Print Assumptions C01_top_decays_in_C.
